@@ -22,6 +22,8 @@ func PanicMatches(kind string, r *Report) bool {
 		return r.PanicType == "modsim.PlainStruct" && r.PanicValue == "{7 x}"
 	case "custom":
 		return r.PanicType == "modsim.CustomErr" && r.PanicValue == "custom error 42"
+	case "typednil":
+		return r.PanicType == "*fs.PathError"
 	case "ctxcanceled":
 		return r.PanicType == "*errors.errorString" && r.PanicValue == "context canceled"
 	case "ctxwrapped":
